@@ -185,6 +185,7 @@ func c09Gen(g *core.Gen) {
 	g.Emit(&c09Case{Kind: "env"})
 	for _, p := range paths {
 		g.Emit(&c09Case{Kind: "refused", Path: p})
+		g.Emit(&c09Case{Kind: "lenseq", Path: p})
 		step := 256
 		for lo := 0; lo < 65536; lo += step {
 			g.Emit(&c09Case{Kind: "values", Path: p, Lo: lo, Hi: lo + step})
@@ -401,8 +402,77 @@ func c09RefusedRun(c *c09Case, r *core.Rec) {
 	r.NontrivialCase()
 }
 
+// c09LenSeqRun: every ordered triple of lengths 32+t1, 32+t2, 32+t3 (tails t in 2..30 behind one full SIMD block) and
+// every ordered pair of short lengths, called back to back in one goroutine with garbage collection off, on fresh
+// buffers each time: what a call parks (a scratch block, a pooled tail buffer) must not reach the next call.
+func c09LenSeqRun(c *c09Case, r *core.Rec) {
+	k, why := c09Path(c.Path)
+	if k == nil {
+		r.Count("skipped_"+c.Path, 1)
+		r.Note("path " + c.Path + " skipped: " + why)
+		return
+	}
+	defer k.restore()
+	oldGC := debug.SetGCPercent(-1)
+	defer debug.SetGCPercent(oldGC)
+	n := 0
+	call := func(L, op int, cc uint16) bool {
+		in, out := make([]byte, L), make([]byte, L)
+		for i := range in {
+			in[i] = byte(i*11 + L + 3)
+			out[i] = byte(i*5 + 7)
+		}
+		if op == 0 {
+			k.mul(gf2p16.T(cc), in, out)
+		} else {
+			k.mulAdd(gf2p16.T(cc), in, out)
+		}
+		n++
+		for i := 0; i+1 < L; i += 2 {
+			want := gf16.Mul(cc, uint16(in[i])|uint16(in[i+1])<<8)
+			if op == 1 {
+				want ^= uint16(byte(i*5+7)) | uint16(byte((i+1)*5+7))<<8
+			}
+			if got := uint16(out[i]) | uint16(out[i+1])<<8; got != want {
+				r.Violatef("kernel-wrong-value-after-history:"+c.Path, "path %s: len %d op %d c=%#x word %d = %#x, want %#x (after calls of other lengths in this goroutine)", c.Path, L, op, cc, i/2, got, want)
+				return false
+			}
+		}
+		return true
+	}
+	var tails []int
+	for t := 2; t <= 30; t += 2 {
+		tails = append(tails, t)
+	}
+	for _, t1 := range tails {
+		for _, t2 := range tails {
+			for _, t3 := range tails {
+				op := (t1/2 + t2/2 + t3/2) % 2
+				if !call(32+t1, 1, 0x1234) || !call(32+t2, op, 0x8001) || !call(32+t3, 1, 0x00ff) {
+					return
+				}
+			}
+		}
+	}
+	for a := 2; a <= 66; a += 2 {
+		for b := 2; b <= 66; b += 2 {
+			if !call(a, 1, 0x1234) || !call(b, 1, 0xfedc) || !call(a, 0, 3) {
+				return
+			}
+		}
+	}
+	r.AddStates(n)
+	r.AddTransitions(n)
+	r.Outcome("lenseq " + c.Path)
+	r.NontrivialCase()
+}
+
 func c09Run(ci interface{}, r *core.Rec) {
 	c := ci.(*c09Case)
+	if c.Kind == "lenseq" {
+		c09LenSeqRun(c, r)
+		return
+	}
 	if c.Kind == "env" {
 		c09EnvRun(r)
 		return
@@ -596,7 +666,7 @@ func init() {
 		AltArch: true,
 		Level:   "model_checking",
 		Rule: "complete over values: for every dispatch path (SSSE3 assembly, non-SSSE3 assembly via the forced flag, portable Go byte kernels, the little-endian cast path, the []T kernels used by Matrix with the dispatch flag on and off, and the real non-amd64 dispatch (byte and []T kernels) in a GOARCH=386 worker) x every constant c (65536) x a buffer holding every word value (65536) x {Mul, MulAndAdd against a prior content}. " +
-			"Shapes: every even length 0..200 and {65534,65536,65538,131070,131072,131074,262178} x every (src,dst) alignment pair mod 16 (4x4 for the large ones) x 8 constants x placement against the upper / lower PROT_NONE guard page, and (lengths <= 200) as a window of a larger area whose capacity extends beyond the length, plus in==out aliasing; a history of 2 x CPUs + 3 calls outside the contract (buffers of different lengths) per length in {2,34,4096,65536} followed by valid calls; short shapes also with a low-entropy input (zero except the first / last word and the last word of every 16-byte block). Environment: every constant x a 34-byte buffer on every path in a FRESH process whose HOME / XDG_* / TMPDIR / working directory are scratch directories, then again for every file that process left there x 11 mutations of it (truncated, emptied, garbled, grown, replaced by a directory, removed). " +
+			"Shapes: every even length 0..200 and {65534,65536,65538,131070,131072,131074,262178} x every (src,dst) alignment pair mod 16 (4x4 for the large ones) x 8 constants x placement against the upper / lower PROT_NONE guard page, and (lengths <= 200) as a window of a larger area whose capacity extends beyond the length, plus in==out aliasing; a history of 2 x CPUs + 3 calls outside the contract (buffers of different lengths) per length in {2,34,4096,65536} followed by valid calls; every ordered triple of lengths 32+t (t = 2..30) and every ordered pair of lengths 2..66 back to back in one goroutine with garbage collection off; short shapes also with a low-entropy input (zero except the first / last word and the last word of every 16-byte block). Environment: every constant x a 34-byte buffer on every path in a FRESH process whose HOME / XDG_* / TMPDIR / working directory are scratch directories, then again for every file that process left there x 11 mutations of it (truncated, emptied, garbled, grown, replaced by a directory, removed). " +
 			"Oracle: out[i]==ref(c,in[i]) (xor prior); input unchanged; guard pages (faults become panics via SetPanicOnFault) and canary bytes detect any access outside the buffers. non-trivial = every executed case",
 		Assumptions: []string{"'no SSSE3' is simulated by forcing the dispatch flag (build-tagged hook)", "big-endian hosts are reached only through the exported portable byte kernels"},
 		NewCase:     func() interface{} { return &c09Case{} },
